@@ -129,6 +129,8 @@ class Theory:
 
     def seq(self, elem_kind):
         """Sequence theory for an element kind ('int','bool','V','E','str','T3', ('seq',k))."""
+        if elem_kind == 'ME':
+            elem_kind = 'E'          # mapping entries share the entry sort (and hence the sequence theory) with sequence entries
         key = kind_name(elem_kind)
         if key not in self.seqs:
             self.seqs[key] = SeqTheory(self, 'Seq_' + key, self.sort_of(elem_kind))
@@ -451,6 +453,30 @@ class Theory:
                               z3.And(SS.idx(self.sorted_keys(ks), i) != SS.idx(self.sorted_keys(ks), j),
                                      self.s_lt(SS.idx(self.sorted_keys(ks), i), SS.idx(self.sorted_keys(ks), j)))),
                    [[SS.idx(self.sorted_keys(ks), i), SS.idx(self.sorted_keys(ks), j)]])
+
+        # an arbitrary enumeration of a key set (dict iteration order is unspecified for the proof): members, complete, distinct
+        self.enum_keys = f('enum_keys', self.KS, SS.sort)
+        self.enum_pos = f('enum_pos', self.KS, Str, I)
+        self.axiom('enum_keys_member', [ks, i],
+                   z3.Implies(z3.And(0 <= i, i < SS.len(self.enum_keys(ks))), mem(ks, SS.idx(self.enum_keys(ks), i))),
+                   [SS.idx(self.enum_keys(ks), i)])
+        self.axiom('enum_keys_complete', [ks, sk],
+                   z3.Implies(mem(ks, sk),
+                              z3.And(0 <= self.enum_pos(ks, sk), self.enum_pos(ks, sk) < SS.len(self.enum_keys(ks)),
+                                     SS.idx(self.enum_keys(ks), self.enum_pos(ks, sk)) == sk)),
+                   [[mem(ks, sk), self.enum_keys(ks)], [self.enum_pos(ks, sk)]])
+        self.axiom('enum_keys_distinct', [ks, i, j],
+                   z3.Implies(z3.And(0 <= i, i < j, j < SS.len(self.enum_keys(ks))),
+                              SS.idx(self.enum_keys(ks), i) != SS.idx(self.enum_keys(ks), j)),
+                   [[SS.idx(self.enum_keys(ks), i), SS.idx(self.enum_keys(ks), j)]])
+        self.axiom('enum_pos_inverse', [ks, i],
+                   z3.Implies(z3.And(0 <= i, i < SS.len(self.enum_keys(ks))), self.enum_pos(ks, SS.idx(self.enum_keys(ks), i)) == i),
+                   [SS.idx(self.enum_keys(ks), i)])
+        self.ks_empty = z3.Const('ks.empty', self.KS)
+        self.ks_add = f('ks.add', self.KS, Str, self.KS)
+        self.axiom('ks_empty_def0', [sk], z3.Not(mem(self.ks_empty, sk)), [mem(self.ks_empty, sk)])
+        self.axiom('ks_add_def0', [ks, sk, sk2], mem(self.ks_add(ks, sk), sk2) == z3.Or(sk2 == sk, mem(ks, sk2)),
+                   [mem(self.ks_add(ks, sk), sk2)])
 
         # ---- Apply for mapping diffs:  am_dom / am_get as folds over the entry list ----
         # well-formed map diff relative to obj:  keys pairwise distinct; add => key not in obj; others => in obj
